@@ -26,6 +26,10 @@ type c01Case struct {
 	Policy  string   `json:"policy"` // "store-default" | "discard-default" | "discard-default+inert-discard-list"
 	Backend string   `json:"backend"`
 	Txns    []c01Txn `json:"txns"`
+	// Fault > 0: the Fault-th AddMessage of the connection is refused by the store (environment
+	// fault); FaultStays: so is every later one.
+	Fault      int  `json:"fault,omitempty"`
+	FaultStays bool `json:"fault_stays,omitempty"`
 }
 
 func c01Spec(cas c01Case) sys.Spec {
@@ -50,7 +54,11 @@ func c01Spec(cas c01Case) sys.Spec {
 		smtp.DefaultStore = false
 		smtp.StoreDomains = []string{"keep.test"}
 	}
-	return sys.Spec{Store: sys.StoreSpec{Backend: cas.Backend}, Naming: cas.Naming, SMTP: smtp, NoHub: true}
+	sp := sys.Spec{Store: sys.StoreSpec{Backend: cas.Backend}, Naming: cas.Naming, SMTP: smtp, NoHub: true}
+	if cas.Fault > 0 {
+		sp.AddFault = &sys.AddFault{At: cas.Fault, Persistent: cas.FaultStays}
+	}
+	return sp
 }
 
 func c01Policy(cas c01Case) model.Policy {
@@ -66,7 +74,8 @@ func c01Policy(cas c01Case) model.Policy {
 
 // c01Exec runs one connection script and checks the store after every transaction end.
 func c01Exec(c *fw.Ctx, cas c01Case) (nontrivial bool) {
-	s := sys.New(c01Spec(cas))
+	spec := c01Spec(cas)
+	s := sys.New(spec)
 	defer s.Close()
 	pol := c01Policy(cas)
 	mo := model.NewStore(0, 0)
@@ -94,6 +103,7 @@ func c01Exec(c *fw.Ctx, cas c01Case) (nontrivial bool) {
 		fail("helo", "HELO refused: "+r.String())
 		return
 	}
+	addCalls := 0 // AddMessage calls the unchanged server has made so far on this connection
 	for ti, t := range cas.Txns {
 		if r := d.Cmd("MAIL FROM:<s@o.test>"); !r.OK {
 			fail("mail|no-reply", "no reply to MAIL: "+r.Why)
@@ -121,15 +131,52 @@ func c01Exec(c *fw.Ctx, cas c01Case) (nontrivial bool) {
 				}
 				body = "From: s@o.test\r\nTo: " + to + "\r\nSubject: " + subject + "\r\n\r\nbody with headers " + fmt.Sprint(ti) + "\r\n"
 			}
+			envFrom, envRcpts := d.From, append([]string{}, d.Rcpts...)
+			var hitsBefore int64
+			if spec.AddFault != nil {
+				hitsBefore = spec.AddFault.Hits.Load()
+			}
 			mid, fin := d.Data(body)
 			if mid.Code == 354 && !fin.OK {
 				fail("data|no-reply", "no reply after the terminating dot: "+fin.Why)
+				return
+			}
+			if spec.AddFault != nil && spec.AddFault.Hits.Load() > hitsBefore && mid.Code == 354 && fin.Class() != 2 {
+				// The store refused a delivery and the transaction was refused (451): "a transaction
+				// that is refused adds nothing to any mailbox".
+				names := []string{"a", "b", "a@keep.test", "b@keep.test", "keep.test"}
+				p0 := s.CheckDelivery(mo, nil, names...)
+				if len(p0) == 0 {
+					continue
+				}
+				// what inbucket does: the copies made before the failing one stay.  That shape - one
+				// copy for each storable recipient that precedes the failure, nothing else - is the
+				// recorded finding; anything else (a second copy, a later recipient) is reported as is.
+				var part []sys.Expect
+				for _, a := range envRcpts {
+					if !pol.StoreRcpt(model.DomainOf(a)) {
+						continue
+					}
+					addCalls++
+					if addCalls == cas.Fault || (cas.FaultStays && addCalls > cas.Fault) {
+						break
+					}
+					part = append(part, sys.Expect{Mailbox: model.SimpleMailbox(cas.Naming, a), From: envFrom, To: envRcpts, Subject: subject, Data: body})
+				}
+				if len(part) > 0 && len(s.CheckDelivery(mo, part, names...)) == 0 {
+					fail("fault|refused-after-partial-delivery", fmt.Sprintf("the store refused the copy for recipient number %d of the transaction; the server answered %q, yet the %d recipient(s) before it keep their copy: the refused transaction did add to mailboxes (and a client that retries after 451 delivers them a second copy)", len(part)+1, fin.String(), len(part)))
+					continue
+				}
+				for _, p := range p0 {
+					fail("fault|"+p[0], "the store refused one delivery and the server answered "+fin.String()+": "+p[1])
+				}
 				return
 			}
 			if mid.Code == 354 && fin.Class() == 2 {
 				from, rcpts := d.Delivered()
 				for _, a := range rcpts {
 					if pol.StoreRcpt(model.DomainOf(a)) {
+						addCalls++
 						exp = append(exp, sys.Expect{Mailbox: model.SimpleMailbox(cas.Naming, a), From: from, To: rcpts, Subject: subject, Data: body})
 					}
 				}
@@ -247,6 +294,58 @@ func c01Run(c *fw.Ctx) {
 	}
 }
 
+// c01FaultRun - one refused AddMessage (an environment fault) at every position of multi-recipient
+// transactions: an acknowledged transaction still means exactly one copy per accepted recipient,
+// a refused one adds nothing.  The fault is the first transaction's; the second transaction shows
+// what a retry by the client does.
+func c01FaultRun(c *fw.Ctx) {
+	storable := []int{0, 1, 2, 3} // a, A+x (the same mailbox under local naming), b, a@drop.test (not stored)
+	var rcptSeqs [][]int
+	var gen func(cur []int)
+	gen = func(cur []int) {
+		if len(cur) >= 2 {
+			rcptSeqs = append(rcptSeqs, append([]int{}, cur...))
+		}
+		if len(cur) == 3 {
+			return
+		}
+		for _, i := range storable {
+			gen(append(cur, i))
+		}
+	}
+	gen(nil)
+	n := 0
+	for _, be := range []string{"mem", "file"} {
+		for _, naming := range []string{"local", "full"} {
+			for _, rs := range rcptSeqs {
+				for _, term := range []string{"DATA-hdr", "DATA-plain"} {
+					for k := 1; k <= len(rs); k++ {
+						for _, stays := range []bool{false, true} {
+							n++
+							if !c.Mine(n) {
+								continue
+							}
+							if c.Expired() {
+								return
+							}
+							cas := c01Case{Naming: naming, Policy: "store-default", Backend: be, Fault: k, FaultStays: stays,
+								Txns: []c01Txn{{rs, term}, {rs, "DATA-plain"}}}
+							if !c.Begin(func() any { return cas }) {
+								continue
+							}
+							var nt bool
+							c.Guard(be, cas, func() { nt = c01Exec(c, cas) })
+							if nt {
+								c.Nontrivial(1)
+							}
+						}
+					}
+				}
+			}
+		}
+	}
+}
+
 func c01Replay(c *fw.Ctx, raw json.RawMessage) {
 	var cas c01Case
 	if err := json.Unmarshal(raw, &cas); err != nil {
@@ -257,4 +356,5 @@ func c01Replay(c *fw.Ctx, raw json.RawMessage) {
 
 func init() {
 	fw.Register(&fw.Body{ID: "C01", Part: "seq", Run: c01Run, ReplayCase: c01Replay})
+	fw.Register(&fw.Body{ID: "C01", Part: "fault", Run: c01FaultRun, ReplayCase: c01Replay})
 }
